@@ -130,6 +130,12 @@ def main():
         for x in per_mod[name]:
             for ajax in (False, True):
                 flat.append({'qs': q(x), 'ajax': ajax, 'marker': '', 'cls': 'corpus:' + name, 'fresh': False})
+    # ... and the first number of every module with a blank in front and a line feed behind: the listing must be about the text as
+    # submitted (the modules that do not strip -- the generic algorithms -- then say no)
+    for name in sorted(per_mod):
+        x = per_mod[name][0]
+        flat.append({'qs': q(' ' + x), 'ajax': True, 'marker': '', 'cls': 'padded:' + name, 'fresh': False})
+        flat.append({'qs': q(x + '\n'), 'ajax': False, 'marker': '', 'cls': 'padded:' + name, 'fresh': False})
     for i in range(0, len(flat), 40):
         jobs.append(flat[i:i + 40])
     with ThreadPoolExecutor(max_workers=16) as ex:
